@@ -450,6 +450,7 @@ type cacheGen struct {
 	thr      int64     // future threshold of the scenario (0: none)
 	lastFut  int64     // timestamp of the last future probe
 	follow   string    // target of a future probe just made: the next op re-probes it
+	metaDel  bool      // deletes addressed to the cache's own leaf-accounting leaves (profile meta)
 	mixKinds bool      // containers written where leaves are and the reverse (cache family only: a subscriber's queue
 	//                   holds leaf handles, and a handle whose leaf changed kind in place is outside the stream properties)
 }
@@ -731,6 +732,13 @@ func (g *cacheGen) fresh(now *int64) cacheOp {
 		}
 		return o
 	case x < 70: // single delete (literal or wildcard)
+		if g.metaDel && r.Intn(25) == 0 {
+			// a delete addressed to one of the cache's own leaf-accounting leaves (a target - through the collector,
+			// with the prefix origin "meta" - or any user of the cache can send it)
+			name := []string{"targetLeaves", "targetLeavesAdded", "targetLeavesDeleted"}[r.Intn(3)]
+			return cacheOp{Op: "GnmiUpdate", T: t, Ts: *now + 1, Now: *now, Prefix: &pathDesc{Target: t},
+				Dels: []pathDesc{{Elems: []elemDesc{{Name: "meta"}, {Name: name}}}}}
+		}
 		pre, p := g.dataPath(t, true)
 		if len(pre.Elems)+len(pre.Element)+len(p.Elems)+len(p.Element) == 0 || r.Intn(6) == 0 {
 			pre.Elems, pre.Element, pre.Origin = nil, nil, ""
@@ -816,7 +824,7 @@ func cacheRandom(args []string) error {
 		if *profile == "multi" && len(all) < 2 {
 			all = []string{"dev1", "dev10"}
 		}
-		g := &cacheGen{r: r, targets: all, w: weights, tsDense: *profile == "ts" || r.Intn(3) == 0, mixKinds: true}
+		g := &cacheGen{r: r, targets: all, w: weights, tsDense: *profile == "ts" || r.Intn(3) == 0, mixKinds: true, metaDel: *profile == "meta"}
 		if r.Intn(2) == 0 {
 			g.fav = cacheArms[r.Intn(len(cacheArms))]
 		}
